@@ -34,6 +34,9 @@ func init() {
 			{ID: "C18.R11", Floor: 2, Run: typeParamReflection, Text: "reflection of type parameters: reflect.TypeOf is never applied to a value of bare type-parameter type (nil for interface type arguments, so distinct types collapse into one registry key); the idiom reflect.TypeOf((*T)(nil)).Elem() is followed by Elem()"},
 			{ID: "C18.R12", Floor: 10, Run: mapperStateless, Text: "generic mappers hold no world state: methods of Resource[T], Map[T] and MapN never write their receiver's own fields (E-mod); only constructors do"},
 			{ID: "C18.R13", Floor: 4, Run: mapperDelegates, Text: "delegation: each method of Resource[T] that has a namesake on ecs.Resources calls that namesake (Has answers what Resources.Has answers, not whether Get is non-nil)"},
+			{ID: "C18.R14", Floor: 4, Run: variadicTargetForwarded, Text: "a given target is forwarded (= C05.R15), for the generic wrappers as well"},
+			{ID: "C18.R15", Floor: 3, Run: exchangeListsAgree, Text: "generic Exchange: in each method the call with a relation target and the call without pass the same add/remove lists"},
+			{ID: "C18.R16", Floor: 1, Run: checkedCallsChecked, Text: "exported generic methods not named *Unchecked never call an *Unchecked method of package ecs"},
 		},
 	})
 }
